@@ -168,7 +168,7 @@ def impl_predict_tucker(v, X):
 def reg_problems(tier, rng):
     """CP / Tucker regression problems: sample counts 2-8, per-sample orders 1-3, scalar and tensor targets"""
     probs = []
-    nfit = 36 if tier == "quick" else 400
+    nfit = 30 if tier == "quick" else 400
     for k in range(nfit):
         kind = "cp" if k % 3 != 2 else "tucker"
         order = rng.choice([2, 2, 3]) if kind == "tucker" else rng.choice([1, 2, 2, 3])
@@ -467,7 +467,7 @@ def plsr_fit_problems(tier, rng):
     """small problems on which the number of passes of the inner iteration is pinned: tol = 0 (never stops early,
     exactly n_iter_max passes) or tol = 1e300 (stops after the second pass)"""
     probs = []
-    nfit = 20 if tier == "quick" else 150
+    nfit = 16 if tier == "quick" else 150
     for k in range(nfit):
         order = rng.choice([1, 2, 2, 3])
         sx = tuple(rng.randint(2, 3) for _ in range(order))
@@ -491,7 +491,7 @@ def plsr_fit_problems(tier, rng):
 def plsr_conv_problems(tier, rng):
     """the same small problems run to convergence with a real tolerance (n_iter_max = 100): the model follows the
     stopping test; a case is compared only where the model's decisions have a factor-2 margin (decided in Coq)"""
-    want = 12 if tier == "quick" else 100
+    want = 8 if tier == "quick" else 100
     probs = []
     while len(probs) < want:       # a single-column Y converges in one pass: keep the problems with >= 2 columns
         probs += [p for p in plsr_fit_problems(tier, rng) if np.ndim(p["y"]) == 2 and p["y"].shape[1] >= 2]
@@ -623,7 +623,7 @@ def plsr_fit_case(p):
 # ----------------------------------------------------------------------------- the regressors' fit loop
 def loop_problems(tier, rng):
     probs = []
-    nfit = 10 if tier == "quick" else 80
+    nfit = 8 if tier == "quick" else 80
     for k in range(nfit):
         kind = "cp_loop" if k % 3 != 2 else "tucker_loop"
         order = rng.choice([2, 2, 3])
@@ -1566,8 +1566,11 @@ def source_tie(chk):
         chk.checker_cmds.append("coqc on generated build/gen/C19_*/Src*.v (tensorly/regression source -> Gallina): fit_rejects_src_ok, y_matrix_src_ok, predict_x_rejects_src_ok, "
                                 "transform_x_rejects_src_ok, transform_y_rejects_src_ok, pre_loop_attrs_src_ok, loop_cp_ok, fit_cp_ok, loop_tk_ok, fit_tk_ok, predict_cp_src_ok")
         res = {}
+        from concurrent.futures import ThreadPoolExecutor
+        with ThreadPoolExecutor(max_workers=4) as ex:
+            firsts = list(ex.map(lambda kg: coqc(f"Src{kg[0]}.v", kg[1][1]), enumerate(groups)))
         for k, (name, main, fallback) in enumerate(groups):
-            st, detail = coqc(f"Src{k}.v", main)
+            st, detail = firsts[k]
             if st == "failed" and fallback is not None:
                 st2, detail2 = coqc(f"Src{k}box.v", fallback)
                 if st2 == "proved":
